@@ -159,6 +159,23 @@ def worker(chunk, seed, tier):
                 else:
                     part.outcome("contract", "PrepareDumpError" if isinstance(err, PrepareDumpError) else f"error-{type(err).__name__}")
                 continue
+            if out is obj and kind == "wf" and obj.mo is not None and obj.obasis is not None:
+                # "writes the given object as is": the file just written must denote this very object (C01's comparison, reused)
+                from iodata import load_one
+                from props import c01
+
+                try:
+                    with warnings.catch_warnings():
+                        warnings.simplefilter("ignore")
+                        back = load_one(path)
+                except Exception:  # noqa: BLE001 - self-readability is C01's clause
+                    back = None
+                if back is not None:
+                    problems = []
+                    c01.compare(twin, back, name, problems)
+                    part.outcome("as-is", "file-denotes-the-object" if not problems else "DIFFERS")
+                    for clause, msg in problems[:1]:
+                        part.violation("contract", f"{name}:object-returned-unchanged-but-file-differs:{clause}", info, f"{name} [{devs}] allow_changes={allow}: no conversion was made or announced, yet the file does not denote the object: {msg}")
             if not allow:
                 ok = out is obj and not warned
                 part.outcome("contract", "same-object" if ok else "WRONG")
